@@ -140,6 +140,8 @@ func runLoop(w *pipe.Workload, dir string, stretchMs int, linger bool, limit tim
 	defer runtime.GOMAXPROCS(prev)
 	verifhook.Reset()
 	defer verifhook.Reset()
+	// the periodic renderer only runs for live output; keep it running here (verif-only hook)
+	helpers.VerifSetLiveOutput(true)
 
 	// stretch the run over several 100 ms render ticks with sleeps between
 	// critical sections (before a batch is sent, before a match batch is sent)
@@ -605,7 +607,7 @@ func cliCase(c *run.Ctx, cs Case) {
 	points := fmt.Sprintf("batch.beforeSend=sleep:%dus:p0.5,worker.beforeSend=sleep:%dus:p0.3,files.afterSourceCount=sleep:%dms:n3,files.beforeClose=sleep:2ms,worker.beforeCloseOut=sleep:2ms",
 		perUs, 1+perUs/4, sc)
 	cmd := exec.Command(bin, args...)
-	cmd.Env = append(os.Environ(), "VERIF_POINTS="+points, "VERIF_SEED="+strconv.FormatUint(cs.Seed+uint64(cs.Index), 10))
+	cmd.Env = append(os.Environ(), "VERIF_POINTS="+points, "VERIF_SEED="+strconv.FormatUint(cs.Seed+uint64(cs.Index), 10), "VERIF_LIVE_OUTPUT=1")
 	var stdout, stderr bytes.Buffer
 	cmd.Stdout, cmd.Stderr = &stdout, &stderr
 	if err := cmd.Start(); err != nil {
@@ -707,6 +709,7 @@ func cliFollow(c *run.Ctx, cs Case) {
 	}
 	args = append(args, paths...)
 	cmd := exec.Command(bin, args...)
+	cmd.Env = append(os.Environ(), "VERIF_LIVE_OUTPUT=1")
 	var stdout, stderr bytes.Buffer
 	cmd.Stdout, cmd.Stderr = &stdout, &stderr
 	if err := cmd.Start(); err != nil {
